@@ -15,7 +15,7 @@ VERS = ["T11", "T12", "T13"]
 def subsets(xs):
     return [list(c) for n in range(1, len(xs) + 1) for c in itertools.combinations(xs, n)]
 
-def mk(cv, sv, cs=None, nos=(), cg=(23, 24), sg=(23, 24), shares=1, scsv=0, edit=None, kind="pair", expect=1, pre=None):
+def mk(cv, sv, cs=None, nos=(), cg=(23, 24), sg=(23, 24), shares=1, scsv=0, edit=None, kind="pair", expect=1, pre=None, csig=(), ssig=()):
     cs = list(cs if cs is not None else POOL)
     # nos: per-session operations on the server's enabled set, in order: an id disables the suite, ("+", id) enables it again
     nosops = list(nos)
@@ -50,6 +50,9 @@ def mk(cv, sv, cs=None, nos=(), cg=(23, 24), sg=(23, 24), shares=1, scsv=0, edit
         L += ["new s9 server keys=ks ver=%s" % pre["ver"], "new c9 client keys=kc ver=%s suites=%s sid=R%s" % (pre["ver"], hex(pre["suite"]), " tick=1" if how == "ticket" else ""),
               "link c9 s9", "pump c9 s9 max=60", "send c9 3", "pump c9 s9 max=8", "close c9", "pump c9 s9 max=8", "del c9", "del s9"]
         co += " sid=R" + (" tick=1" if how == "ticket" else "")
+    # signature algorithms: what the client offers / the server enables (empty: the defaults)
+    if csig: co += " sigalgs=%s" % ",".join(hex(x) for x in csig)
+    if ssig: so += " sigalgs=%s" % ",".join(hex(x) for x in ssig)
     L += ["new s0 server keys=ks %s" % so, "new c0 client keys=kc %s" % co, "link c0 s0"]
     if edit is None:
         L += ["pump c0 s0 max=60"]
@@ -61,9 +64,9 @@ def mk(cv, sv, cs=None, nos=(), cg=(23, 24), sg=(23, 24), shares=1, scsv=0, edit
         who = "c0" if tgt in ("CH", "CH2") else "s0"
         L += pre + ["mod %s 0 %d %s" % (who, off, hex(x)), "pump c0 s0 max=60"]
     L += ["state c0", "state s0", "send c0 5", "send s0 6", "pump c0 s0 max=8", "state c0", "state s0"]
-    meta = {"C": dict(vers=[int(v[1:]) for v in cv], suites=cs, groups=list(cg), scsv=scsv, expect=expect),
-            "S": dict(vers=[int(v[1:]) for v in sv], suites=ss, groups=list(sg), scsv=0, expect=expect)}
-    return dict(lines=L, ncfg=meta, kind=kind, desc="c=%s s=%s cs=%s nos=%s cg=%s/%d sg=%s scsv=%d edit=%s" % (cv, sv, [hex(s) for s in cs], [hex(s) for s in nos], cg, shares, sg, scsv, edit))
+    meta = {"C": dict(vers=[int(v[1:]) for v in cv], suites=cs, groups=list(cg), scsv=scsv, expect=expect, sigs=list(csig)),
+            "S": dict(vers=[int(v[1:]) for v in sv], suites=ss, groups=list(sg), scsv=0, expect=expect, sigs=list(ssig))}
+    return dict(lines=L, ncfg=meta, kind=kind, desc="c=%s s=%s cs=%s nos=%s cg=%s/%d sg=%s scsv=%d edit=%s csig=%s ssig=%s" % (cv, sv, [hex(s) for s in cs], [hex(s) for s in nos], cg, shares, sg, scsv, edit, [hex(x) for x in csig], [hex(x) for x in ssig]))
 
 OFFS = [9, 10, 11, 20, 35, 40, 42, 43, 44, 50, 60, 70, 76, 77, 78, 79, 80, 90, 100, 120, 150, 180, -1, -2, -3, -5, -9, -17, -33]
 
@@ -101,6 +104,19 @@ def episodes(tier, seed):
     for cg, shares, sg in (((23, 24), 1, (24,)), ((24, 23), 1, (23,)), ((23,), 1, (24,)), ((24,), 1, (23, 24)), ((23, 24), 2, (24, 23)), ((23, 24), 0, (23,))):
         E.append(mk(VERS, VERS, cg=cg, shares=shares, sg=sg, kind="groups"))
         E.append(mk(["T13"], ["T13"], cg=cg, shares=shares, sg=sg, kind="groups"))
+    # signature algorithms: every pair of (offered by the client, enabled on the server) lists over three algorithms the server's
+    # RSA key can sign with, the empty list standing for the defaults; the algorithm the server signs with (TLS 1.2:
+    # ServerKeyExchange, TLS 1.3: CertificateVerify) must be on both lists, and with no common algorithm there is no handshake.
+    # (TLS 1.2 lists: SHA-256, SHA-384 and SHA-1 with RSA; the library never signs with SHA-1 when it has a choice, so completion is
+    # demanded only when SHA-256 or SHA-384 is shared. SHA-512 PKCS#1 v1.5 signing is not in this build and is left out.)
+    for ver, suite, algs, cansign in (("T12", 0xc02f, (0x0401, 0x0501, 0x0201), (0x0401, 0x0501)), ("T13", 0x1301, (0x0804, 0x0805, 0x0806), (0x0804, 0x0805, 0x0806))):
+        lists = [()] + [tuple(x) for x in subsets(list(algs))]
+        for csig in lists:
+            for ssig in lists:
+                common = set(csig or algs) & set(ssig or algs)
+                # TLS 1.2: the server's certificate chain (signed with SHA-256/RSA) has to be acceptable to the client as well
+                certok = ver == "T13" or (0x0401 in (csig or algs))
+                E.append(mk([ver], [ver], cs=[suite], csig=csig, ssig=ssig, kind="sigalgs", expect=1 if (common & set(cansign)) and certok else 0))
     # in-flight rewrites
     base = [dict(cv=VERS, sv=VERS), dict(cv=["T12"], sv=VERS), dict(cv=VERS, sv=["T12"]), dict(cv=["T11", "T12"], sv=["T11", "T12"], cs=[0x2f]),
             dict(cv=["T13"], sv=["T13"], cs=[0x1303])]
